@@ -41,7 +41,7 @@ def multinomial2(born):
 
 
 def run(ctx):
-    vlib.translate(ctx, ["PhaseTable"])
+    vlib.translate(ctx, ["PhaseTable", "Conj"])
     vlib.prove(ctx, PROPS_MODULE, ["drv_c01", "drv_c02"], REQUIRED)
     # (A) the trace correspondence of the simulator model (shared with C02)
     import props.c02 as c02
